@@ -90,6 +90,15 @@ def decode_value(v: Any, objs: dict) -> Any:
         from dliswriter import AttrSetup
         return AttrSetup(**{k: decode_value(x, objs) for k, x in v['$as'].items()})
     if '$dict' in v:
+        if v.get('shared'):
+            # ONE dict object for all equal specifications of a build (the caller re-uses his dict for several
+            # attributes); kept with its specification so that the harness can see whether the library changed it
+            import json as _json
+            pool = objs.setdefault('__shared_dicts__', {})
+            key = _json.dumps(v['$dict'], sort_keys=True, default=str)
+            if key not in pool:
+                pool[key] = ({k: decode_value(x, objs) for k, x in v['$dict'].items()}, sorted(v['$dict']))
+            return pool[key][0]
         return {k: decode_value(x, objs) for k, x in v['$dict'].items()}
     if '$enum' in v:
         from dliswriter import enums
@@ -288,6 +297,8 @@ def run_spec(spec: dict, fname: str = 'out.dlis', keep_built: bool = False, pre:
         res['write'] = _exc(e)
     finally:
         _unwind(b)
+    # dicts the 'caller' re-used for several attributes must still hold what he put in
+    res['caller_dicts_changed'] = [k for k, (d, keys) in (b.objs.get('__shared_dicts__') or {}).items() if sorted(d) != keys]
     if res['write'] == 'ok':
         with open(path, 'rb') as f:
             res['data'] = f.read()
